@@ -14,6 +14,9 @@ echo "suite with patch: $R1"
 git apply $D/out/demo.diff
 R2=$(cargo test --workspace --offline 2>&1 | grep -E "^test result" | awk '{p+=$4; f+=$6} END {print p" passed "f" failed"}')
 echo "suite+demo with patch: $R2"
+# 2b. demo with patch in the miniwasm build (some changes only show there; 3 tests of the repo are Osmosis-specific and fail in this build anyway)
+R2B=$(cargo test -p staking --no-default-features --features miniwasm --offline 2>&1 | grep -E "^test result" | awk '{p+=$4; f+=$6} END {print p" passed "f" failed"}')
+echo "suite+demo with patch (miniwasm build, 3 Osmosis-only failures expected): $R2B"
 # 3. demo without patch
 git apply -R $D/out/patch.diff
 R3=$(cargo test --workspace --offline 2>&1 | grep -E "^test result" | awk '{p+=$4; f+=$6} END {print p" passed "f" failed"}')
